@@ -268,3 +268,18 @@ impl Session {
         Ok((packet, session))
     }
 }
+
+#[cfg(feature = "verif-hooks")]
+impl Session {
+    /// (encryption key, decryption key) of the current keys and of the old keys, if any
+    /// (verification hook, read-only).
+    #[allow(clippy::type_complexity)]
+    pub(crate) fn verif_keys(&self) -> (([u8; 16], [u8; 16]), Option<([u8; 16], [u8; 16])>) {
+        (
+            (self.keys.encryption_key, self.keys.decryption_key),
+            self.old_keys
+                .as_ref()
+                .map(|k| (k.encryption_key, k.decryption_key)),
+        )
+    }
+}
